@@ -1,17 +1,19 @@
+\* KeyLife_gen_quick.cfg: every transition: 2 key IDs (1 rotation), ticks 0..3, both fetcher orders (MaxReq unused in cover mode)
 SPECIFICATION GSpec
 CONSTANTS
   Mode = "cover"
-  NK = 3
+  NK = 2
   MaxT = 3
-  MaxRot = 2
+  MaxRot = 1
   MaxReq = 3
   V = 2
   Orders <- BothOrders
   NModes <- NAny
   Sigs <- SGood
   ReqTS <- TS03
-  StoreRule = "held"
+  Rules <- RBoth
+  StoreRule = "monotone"
 VIEW View
-INVARIANTS TypeOK Sound Complete NoNeedlessContact InOrder ExpiredDecides KnownExpiry OldKeyStillVerifies DBMonotone ExpiredIsFinal FreshIsKept NothingInvented StoredFetched Continuity LastDB OutageHarmless OutageInHistory Again Sanity Emit
-PROPERTIES EnvLeavesDB
+INVARIANTS TypeOK Sound Complete NoNeedlessContact InOrder ExpiredDecides KnownExpiry OldKeyStillVerifies DBMonotone ExpiredIsFinal NothingInvented StoredFetched Continuity LastDB OutageHarmless OutageInHistory Again RetiredForGood Sanity Emit
+PROPERTIES EnvLeavesDB EveryCallOK
 CHECK_DEADLOCK FALSE
